@@ -121,10 +121,32 @@ def audit_axioms(theorems, imports=('FlexVerif',)):
     return res, missing
 
 
+def modules_of(theorems):
+    """the Lean modules that declare the given theorems (looked up in the sources)"""
+    mods = set()
+    srcs = []
+    for root, _, files in os.walk(os.path.join(LEAN_DIR, 'FlexVerif')):
+        for f in files:
+            if f.endswith('.lean'):
+                path = os.path.join(root, f)
+                srcs.append((path, open(path).read()))
+    for t in theorems:
+        last = t.split('.')[-1]
+        pat = re.compile(r'^\s*(?:@\[[^\]]*\]\s*)?(?:theorem|lemma|def)\s+(?:[\w.]+\.)?%s\b' % re.escape(last), re.M)
+        for path, text in srcs:
+            if pat.search(text):
+                rel = os.path.relpath(path, LEAN_DIR)[:-5]
+                mods.add(rel.replace(os.sep, '.'))
+    return sorted(mods)
+
+
 def proof_audit(ctx, theorems):
     """build + audit; records violations (no failing input) when an obligation is broken.
-    Returns the number of obligations discharged."""
-    ok, out = lean_build()
+    Returns the number of obligations discharged.  Only the modules that declare this check's
+    theorems (and what they import) and the driver are built: an obligation of another property
+    that no longer checks is that property's business."""
+    mods = modules_of(theorems)
+    ok, out = lean_build(tuple(mods) + ('fvdriver',))
     if not ok:
         ctx.build_output = out
         ctx.proof_broken = lean_failed_decls(out) or ['lake build failed']
@@ -133,7 +155,7 @@ def proof_audit(ctx, theorems):
     hits = audit_sources()
     if hits:
         ctx.proof_broken += ['forbidden construct: ' + h for h in hits]
-    ax, missing = audit_axioms(theorems)
+    ax, missing = audit_axioms(theorems, imports=tuple(mods) or ('FlexVerif',))
     for t in missing:
         ctx.proof_broken.append('theorem not found: ' + t)
     good = 0
